@@ -8,20 +8,27 @@ import (
 )
 
 type SurnameInList struct {
-	document *gedcom.Document
-	surname  string
+	document   *gedcom.Document
+	surname    string
+	visibility LivingVisibility
 }
 
-func NewSurnameInList(document *gedcom.Document, surname string) *SurnameInList {
+func NewSurnameInList(document *gedcom.Document, surname string, visibility LivingVisibility) *SurnameInList {
 	return &SurnameInList{
-		document: document,
-		surname:  surname,
+		document:   document,
+		surname:    surname,
+		visibility: visibility,
 	}
 }
 
 func (c *SurnameInList) WriteHTMLTo(w io.Writer) (int64, error) {
 	count := 0
 	for _, individual := range c.document.Individuals() {
+		// Hidden living individuals are not counted.
+		if c.visibility == LivingVisibilityHide && individual.IsLiving() {
+			continue
+		}
+
 		if individual.Name().Surname() == c.surname {
 			count++
 		}
